@@ -214,6 +214,10 @@ def run(rep, br, proofs, rng, tier):
            ["global (log, flag)\nlog = append(log, \"m1\")\nstate := 0\nif !flag { flag = true; throw \"x\" }\nlog = append(log, \"m1-done\")\nreturn {set: func(v) { state = v }, get: func() { return state }}\n"]),
           ("throws-in-dependency", "global log\nout := []\ntry { import(\"m1\") } catch e { out = append(out, \"c1\") }\ntry { import(\"m2\") } catch e { out = append(out, \"c2\") }\ntry { import(\"m1\") } catch e { out = append(out, \"c3\") }\nreturn [out, log]\n",
            ["global log\nlog = append(log, \"m1\")\nx := import(\"m2\")\nlog = append(log, \"m1-done\")\nreturn {x: x}\n", "global log\nlog = append(log, \"m2\")\nthrow \"y\"\n"])]
+    # a body that reaches, through a function value the main script put into a global, an import of the module being
+    # loaded: the cache is still empty, the body starts again (known finding D12r, C12_reentrant_body_refuted)
+    TH.append(("reentrant", "global (log, g)\nout := []\ng.f = func() { return import(\"m1\") }\nx := import(\"m1\")\nout = append(out, x.n, import(\"m1\").n, len(log))\nreturn [out, log]\n",
+               ["global (log, g)\nlog = append(log, \"m1\")\nmine := len(log)\ninner := undefined\nif mine < 3 { inner = g.f() }\nlog = append(log, \"m1-done\")\nreturn {n: mine}\n"]))
     for name, main, mods in TH:
         for opt in ("opt", "noopt"):
             c = mk_case("th.%s.%s" % (name, opt), "modgraph", opt, "0", hexs(main.encode()), *[hexs(m.encode()) for m in mods])
@@ -242,6 +246,10 @@ def run(rep, br, proofs, rng, tier):
         names = [vlib.unhex(x[1]).decode() for x in log1[1:]]
         if c.get("throwing"):
             done = [x for x in names if x.endswith("-done")]
+            if "reentrant" in c["id"]:
+                if len(done) != len(set(done)) and "D12r" in known:
+                    rep.known("D12r", "a module body that reaches an import of its own module while it runs (through a function value) starts again and returns more than once (program reentrant: %s)" % names)
+                    continue
             if len(done) != len(set(done)):
                 fails.append((c, "a module body returned more than once in one run: %s" % names)); continue
             starts = [x for x in names if not x.endswith("-done")]
